@@ -10,19 +10,74 @@ theorem lines_other (cur r : Bytes) (x : UInt8) (hx : x ≠ 10) :
     lines cur (x :: r) = lines (cur ++ [x]) r := by
   simp [lines, hx]
 
-theorem feed_eq_lines (buff cur s : Bytes) : feed buff cur s = lines (buff ++ cur) s := by
-  induction s generalizing buff cur with
-  | nil => simp [feed, lines]
-  | cons b r ih =>
-    unfold feed lines
-    by_cases hb : b = 10
-    · simp only [hb, if_true]
-      have := ih [] []
+/-- a newline-free prefix only extends the current line -/
+theorem lines_no_nl (cur l s : Bytes) (h : ∀ b ∈ l, b ≠ 10) : lines cur (l ++ s) = lines (cur ++ l) s := by
+  induction l generalizing cur with
+  | nil => simp
+  | cons x r ih =>
+    have hx : x ≠ 10 := h x (by simp)
+    rw [List.cons_append, lines_other _ _ _ hx, ih _ (fun b hb => h b (by simp [hb]))]
+    simp
+
+theorem takeWhile_no_nl (bs : Bytes) : ∀ b ∈ bs.takeWhile (fun b => b != 10), b ≠ 10 := by
+  induction bs with
+  | nil => simp
+  | cons x r ih =>
+    intro b hb
+    by_cases hx : x = 10
+    · subst hx; simp [List.takeWhile] at hb
+    · have : (x != 10) = true := by simpa using hx
+      simp only [List.takeWhile, this] at hb
+      rcases List.mem_cons.mp hb with rfl | hb
+      · exact hx
+      · exact ih b hb
+
+theorem dropWhile_head_nl (bs : Bytes) : ∀ c r, bs.dropWhile (fun b => b != 10) = c :: r → c = 10 := by
+  induction bs with
+  | nil => simp
+  | cons x t ih =>
+    intro c r h
+    by_cases hx : x = 10
+    · subst hx
+      simp [List.dropWhile] at h
+      exact h.1.symm
+    · have : (x != 10) = true := by simpa using hx
+      simp only [List.dropWhile, this] at h
+      exact ih c r h
+
+theorem span_spec (bs : Bytes) :
+    bs = bs.takeWhile (fun b => b != 10) ++ bs.dropWhile (fun b => b != 10) ∧
+    (∀ b ∈ bs.takeWhile (fun b => b != 10), b ≠ 10) ∧
+    (∀ c r, bs.dropWhile (fun b => b != 10) = c :: r → c = 10) :=
+  ⟨(List.takeWhile_append_dropWhile).symm, takeWhile_no_nl bs, dropWhile_head_nl bs⟩
+
+theorem feed_eq_lines (fuel : Nat) (buff s : Bytes) (hf : s.length < fuel) : feed fuel buff s = lines buff s := by
+  induction fuel generalizing buff s with
+  | zero => omega
+  | succ f ih =>
+    obtain ⟨hsplit, hno, hhead⟩ := span_spec s
+    simp only [feed]
+    generalize s.takeWhile (fun b => b != 10) = l at hsplit hno
+    cases hd : s.dropWhile (fun b => b != 10) with
+    | nil =>
+      rw [hd] at hsplit
+      simp only []
+      rw [hsplit, List.append_nil]
+      have := lines_no_nl buff l [] hno
       simp only [List.append_nil] at this
-      rw [this]
+      rw [this]; simp [lines]
+    | cons c r =>
+      rw [hd] at hsplit
+      have hc : c = 10 := hhead c r hd
+      subst hc
+      have hlen : r.length < f := by
+        have : s.length = l.length + (r.length + 1) := by rw [hsplit]; simp
+        omega
+      simp only []
+      rw [ih [] r hlen]
+      conv => rhs; rw [hsplit]
+      rw [lines_no_nl buff l _ hno, lines_nl]
       cases buff <;> simp
-    · simp only [hb, if_false]
-      rw [ih]; simp
 
 theorem lines_append (cur a b : Bytes) :
     lines cur (a ++ b) = ((lines cur a).1 ++ (lines (lines cur a).2 b).1, (lines (lines cur a).2 b).2) := by
@@ -40,8 +95,7 @@ theorem run_eq_lines (buff : Bytes) (chunks : List Bytes) :
   | nil => simp [run, lines]
   | cons c cs ih =>
     simp only [run, write, List.flatten_cons]
-    rw [feed_eq_lines, lines_append, ih]
-    simp
+    rw [feed_eq_lines _ _ _ (Nat.lt_succ_self _), lines_append, ih]
 
 /-! events -/
 
@@ -80,8 +134,7 @@ theorem runSteps_eq_linesEv (buff : Bytes) (steps : List Step) (h : allEnabled s
     | write bs =>
       have hr : allEnabled r = true := by simpa [allEnabled] using h
       simp only [runSteps, step, events, write, if_true]
-      rw [feed_eq_lines, linesEv_bytes_append]
-      simp only [List.append_nil]
+      rw [feed_eq_lines _ _ _ (Nat.lt_succ_self _), linesEv_bytes_append]
       have := ih (lines buff bs).2 hr
       constructor
       · rw [this.1]
